@@ -121,8 +121,9 @@ chk("C06", "exploration",
     "option sets (-C -O -T -X -Z -q -E -D -S -F -L) and several unpack paths into J/R inside a jail that also holds victim files with distinctive owners, modes, times and xattrs and the image itself; a recursive "
     "snapshot (type, mode, owner, size, mtime_ns, xattrs, sha256 or link target) of everything outside R must be identical before and after. With exit 0 the sanely named entries must be present with the right "
     "content and skipped hostile names must be reported.",
-    "Before/after observation of the file system (attempts that fail leave no trace; the planned strace monitor is not built). Runs as root on tmpfs.",
-    "before/after jail snapshot around the real unpacker on hostile images", "3/C06")
+    "Before/after observation of the file system plus, for one unpack per image, a system call path audit under strace (paths of modifying calls after the chdir into R: relative, no '..', "
+    "not through and not following a symlink the run created; failed attempts count). Runs as root on tmpfs.",
+    "before/after jail snapshot + strace path audit around the real unpacker on hostile images", "3/C06")
 chk("C19", "exploration",
     "For each of the copyable kinds (gzip/xz/lzma/lz4/zstd compressors in both directions, fragment table, id table, metadata, directory, data and xattr readers, read-only file, xattr writer) an ASan+LSan "
     "harness builds three identically constructed objects (compressors with seeded non-default options) with the same seeded pre-history; in a third of the histories every allocation inside sqfs_copy(O1) is first made to fail once "
